@@ -73,6 +73,7 @@ type Tgt struct {
 	Host   string `json:"host"`
 	Header string `json:"header"`
 	Path   string `json:"path"` // endpoint named by the URL path (TCP route, upstream route)
+	Fwd    bool   `json:"fwd"`  // the client itself sends x-piko-forward: true
 }
 
 type Step struct {
@@ -439,6 +440,9 @@ func (w *world) send(port, route string, h Hdr, token string, tgt Tgt, tenant st
 		if tgt.Header != "" {
 			req.Header.Set("x-piko-endpoint", tgt.Header)
 		}
+		if tgt.Fwd {
+			req.Header.Set("x-piko-forward", "true")
+		}
 	}
 	if v, ok := headerValue(h, "x", token); ok {
 		req.Header.Set("x-piko-authorization", v)
@@ -792,10 +796,13 @@ func main() {
 						for _, route := range []string{"GET /", "GET /some/path?q=1", "POST /"} {
 							endpointCase(w, route, t, Tgt{Host: host, Header: hd}, emit)
 						}
+						// the same request claiming to have been forwarded by another node
+						endpointCase(w, "GET /", t, Tgt{Host: host, Header: hd, Fwd: true}, emit)
 					}
 				}
 				for _, ep := range []string{"e", "e1", "other"} {
 					endpointCase(w, "GET /_piko/v1/tcp/"+ep, t, Tgt{Path: ep}, emit)
+					endpointCase(w, "GET /_piko/v1/tcp/"+ep, t, Tgt{Path: ep, Fwd: true}, emit)
 					// the path names the endpoint that is routed to, whatever Host and header say
 					for _, host := range hosts {
 						for _, hd := range hosts {
